@@ -63,6 +63,7 @@ def run(ctx) -> None:
   ctx.rule('R8', 'every given trial is completed: completing loops range over the whole argument, not a filtered sub-list', 8)
   ctx.rule('R10', 'evaluate() keeps nothing on the experimenter between calls (no memo of measurements / results on self)', 15)
   ctx.rule('R11', 'NumpyExperimenter calls the wrapped function with one feature row at a time', 1)
+  ctx.rule('R15', 'a wrapper stores the experimenter it was given (it does not look inside it, unwrap it or branch on its class)', 5)
   ctx.rule('R14', 'a wrapper around one experimenter hands it the caller\'s own trial objects (what the base records on them - '
            'measurement, infeasibility - is what the caller sees)', 5)
   ctx.rule('R13', 'a value that comes out of a memoised function (lru_cache / cache) is never modified in place by its callers', 0)
@@ -85,6 +86,7 @@ def run(ctx) -> None:
   r12_no_broken_swap(ctx, subs)
   r13_cached_values_not_mutated(ctx)
   r14_delegation_by_reference(ctx, subs)
+  r15_wrappers_wrap_what_they_are_given(ctx, subs)
 
 
 # ----------------------------------------------------------------------- R1
@@ -386,6 +388,32 @@ def r11_row_at_a_time(ctx) -> None:
             f'`{unparse(bad, 50) if bad is not None else ""}` hands the whole feature matrix to a function documented for one point: a function that happens '
             'to accept a matrix (indexing x[i] picks rows instead of coordinates) returns values that mix the coordinates of different trials',
             construct='impl-on-batch', func=ci.qualname)
+
+
+def r15_wrappers_wrap_what_they_are_given(ctx, subs: List[ClassInfo]) -> None:
+  n = 0
+  for ci in subs:
+    init = ci.methods.get('__init__')
+    if init is None:
+      continue
+    stores = [x for x in ast.walk(init.node) if isinstance(x, ast.Assign) and any(dotted(t) in ('self._exptr', 'self._experimenter') for t in x.targets)]
+    if not stores:
+      continue
+    n += 1
+    par = next((p_ for p_ in init.params if p_ in ('exptr', 'experimenter')), None) or (init.params[1] if len(init.params) > 1 else None)
+    bad = None
+    for x in stores:
+      if not (isinstance(x.value, ast.Name) and x.value.id == par):
+        bad = bad or x
+    rebinds = [x for x in ast.walk(init.node) if isinstance(x, ast.Assign) and any(isinstance(t, ast.Name) and t.id == par for t in x.targets)]
+    peeks = [x for x in ast.walk(init.node) if isinstance(x, ast.Attribute) and isinstance(x.value, ast.Name) and x.value.id == par and x.attr.startswith('_')]
+    bad = bad or (rebinds[0] if rebinds else None) or (peeks[0] if peeks else None)
+    ctx.check(bad is None, 'R15', f'{ci.name}.__init__ stores the experimenter it is given', init.node, f'self._exptr = {par}',
+              f'`{unparse(bad, 60) if bad is not None else ""}`: the wrapper looks inside / replaces the experimenter it was given (e.g. unwraps a wrapper of its own kind): '
+              'a stack of three or more such wrappers no longer composes - Flip(Flip(Flip(e))) behaves like e', construct=f'{ci.name}:unwraps',
+              func=init.qualname)
+  if n < 5:
+    raise AnalysisError(f'only {n} single-experimenter wrapper constructors found')
 
 
 def r14_delegation_by_reference(ctx, subs: List[ClassInfo]) -> None:
